@@ -3,7 +3,7 @@ from core import Unit as U
 
 UNITS = []
 
-def fam(name, harness, entry, functions, quick=True, min_obl=1, timeout=300, variants=("W128", "W128V", "W64", "W64V"), **kw):
+def fam(name, harness, entry, functions, quick=True, min_obl=1, timeout=300, variants=("W128", "W128V", "W64", "W64V"), w64_defs=(), **kw):
     """register <name> for W128 (quick), and the thorough variants: +VERIFY, W64, W64+VERIFY, (W128S)"""
     for v in variants:
         cfg = {"W128": "W128", "W128V": "W128", "W64": "W64", "W64V": "W64", "W128S": "W128S", "W128SV": "W128S"}[v]
@@ -11,13 +11,18 @@ def fam(name, harness, entry, functions, quick=True, min_obl=1, timeout=300, var
         suffix = "" if v == "W128" else "." + v
         tier = "quick" if (v == "W128" and quick) else "thorough"
         UNITS.append(U("C05." + name + suffix, ["C05"], harness, entry, cfg=cfg, verify=verify, tier=tier,
-                       functions=functions, min_obl=min_obl, timeout=timeout, replay=False, **kw))
+                       functions=functions, min_obl=min_obl, timeout=timeout, replay=False, defs=list(w64_defs) if cfg == "W64" else [], **kw))
 
 FE = "harness/C05/arith_fe.c"
-fam("fe_normalize", FE, "h_fe_normalize", ["secp256k1_fe_impl_normalize"])
-fam("fe_normalize_var", FE, "h_fe_normalize_var", ["secp256k1_fe_impl_normalize_var"])
-fam("fe_normalize_weak", FE, "h_fe_normalize_weak", ["secp256k1_fe_impl_normalize_weak"])
-fam("fe_ntz", FE, "h_fe_ntz", ["secp256k1_fe_impl_normalizes_to_zero", "secp256k1_fe_impl_normalizes_to_zero_var"])
+# FINDING (10x26 only): at magnitude 32 the normalize family wraps a uint32 in its first carry pass (native reproducer in the
+# report).  The W64 units therefore prove magnitudes 0..31; C05.fe_normalize_m32.W64 is the failing obligation at 32.
+M31 = ["FE_MAXMAG=31"]
+fam("fe_normalize", FE, "h_fe_normalize", ["secp256k1_fe_impl_normalize"], w64_defs=M31)
+fam("fe_normalize_var", FE, "h_fe_normalize_var", ["secp256k1_fe_impl_normalize_var"], w64_defs=M31)
+fam("fe_normalize_weak", FE, "h_fe_normalize_weak", ["secp256k1_fe_impl_normalize_weak"], w64_defs=M31)
+fam("fe_ntz", FE, "h_fe_ntz", ["secp256k1_fe_impl_normalizes_to_zero", "secp256k1_fe_impl_normalizes_to_zero_var"], w64_defs=M31)
+UNITS.append(U("C05.fe_normalize_m32.W64", ["C05"], FE, "h_fe_normalize", cfg="W64", tier="thorough", functions=["secp256k1_fe_impl_normalize"], replay=False,
+               note="EXPECTED TO FAIL until fixed/accepted: 10x26 normalize at magnitude 32 (uint32 wrap in t0 += x*0x3D1 / t1 += x<<6)"))
 fam("fe_small", FE, "h_fe_small", ["secp256k1_fe_impl_set_int", "secp256k1_fe_impl_add_int", "secp256k1_fe_impl_is_zero", "secp256k1_fe_impl_is_odd", "secp256k1_fe_impl_cmov"])
 fam("fe_cmp", FE, "h_fe_cmp", ["secp256k1_fe_impl_cmp_var"])
 fam("fe_b32", FE, "h_fe_b32", ["secp256k1_fe_impl_set_b32_mod", "secp256k1_fe_impl_set_b32_limit", "secp256k1_fe_impl_get_b32"])
@@ -50,11 +55,12 @@ UNITS.append(U("C05.util_bits.builtin_clz", ["C05"], UT, "h_util_bits", defs=["H
                note="clz64_var through __builtin_clzll (what configure selects on gcc/clang)"))
 fam("util_endian", UT, "h_util_endian", ["secp256k1_read_be32", "secp256k1_read_be64", "secp256k1_write_be32", "secp256k1_write_be64"], variants=("W128",))
 UTL = ["secp256k1_memczero", "secp256k1_is_zero_array", "secp256k1_memcmp_var"]
-# any length: needs hooks/C05_arith_util_loops.diff in the tree (loop contracts inside the three loops)
-UNITS.append(U("C05.util_loops", ["C05"], UT, "h_util_loops", defs=["UTIL_LC=1"], loops=True, functions=UTL, timeout=600, replay=False,
-               note="loop contracts via SECP256K1_VERIF_LOOP (hooks/C05_arith_util_loops.diff)"))
-# bounded stand-in on the unchanged tree
+# any length: needs hooks/C05_arith_util_loops.diff in the tree (loop contracts inside the two loops); thorough until the hook is in /repo
+UNITS.append(U("C05.util_loops", ["C05"], UT, "h_util_loops", defs=["UTIL_LC=1", "UTIL_PART=3"], loops=True, functions=UTL[1:], timeout=600, replay=False, tier="thorough",
+               note="loop contracts via SECP256K1_VERIF_LOOP (hooks/C05_arith_util_loops.diff); memczero: the whole-object havoc of a symbolic-size buffer did not get through SSA conversion in 10 min, see util_memczero_b192"))
+# bounded stand-ins on the unchanged tree
 UNITS.append(U("C05.util_loops_b24", ["C05"], UT, "h_util_loops", unwind=26, bounded="len<=24", functions=UTL, timeout=600, replay=False))
+UNITS.append(U("C05.util_memczero_b192", ["C05"], UT, "h_util_loops", defs=["UTIL_PART=4", "UTIL_LEN_MAX=192", "UTIL_FIXEDBUF=1"], unwind=194, bounded="len<=192 (every call site in src/ passes a constant <= 162)", functions=UTL[:1], timeout=900, replay=False))
 
 # ---- part (b): multiplication-bearing code with -DVERIFY, 64x64 multiplier = uninterpreted function
 FM = "harness/C05/arith_femul.c"
@@ -63,7 +69,7 @@ UNITS.append(U("C05.fe_mul_inner", ["C05"], FM, "h_fe_mul_inner", verify=True, r
                timeout=1500, tier="quick", min_obl=300, replay=False, note="UF multiplier; congruence r = a b mod p is assumed residue"))
 UNITS.append(U("C05.fe_sqr_inner", ["C05"], FM, "h_fe_sqr_inner", verify=True, replace=UF, assumed=[], functions=["secp256k1_fe_sqr_inner"],
                timeout=1500, tier="quick", min_obl=200, replay=False, note="UF multiplier; congruence r = a^2 mod p is assumed residue"))
-UNITS.append(U("C05.umul_axioms", ["C05"], FM, "h_umul_axioms", functions=UF, timeout=1800, tier="thorough", replay=False,
+UNITS.append(U("C05.umul_axioms", ["C05"], FM, "h_umul_axioms", functions=UF, timeout=600, tier="quick", replay=False,
                note="bit-length axioms (B) of the UF multiplier contract, on the real multiplier"))
 UNITS.append(U("C05.fe_mul_inner.W128S", ["C05"], FM, "h_fe_mul_inner", cfg="W128S", verify=True, replace=UF, functions=["secp256k1_fe_mul_inner"], timeout=3000, tier="thorough", replay=False))
 UNITS.append(U("C05.fe_sqr_inner.W128S", ["C05"], FM, "h_fe_sqr_inner", cfg="W128S", verify=True, replace=UF, functions=["secp256k1_fe_sqr_inner"], timeout=3000, tier="thorough", replay=False))
@@ -92,9 +98,9 @@ grp("ge_predicates", "h_ge_predicates", ["secp256k1_ge_is_valid_var", "secp256k1
 # ---- part (b): scalar 512-bit product / reduction carry macros
 SM = "harness/C05/arith_scmul.c"
 UNITS.append(U("C05.sc_mul_512", ["C05"], SM, "h_sc_mul_512", verify=True, replace=UF, functions=["secp256k1_scalar_mul_512", "secp256k1_scalar_sqr_512"],
-               tier="thorough", timeout=1800, replay=False, note="UF multiplier bounded by (2^64-1)^2; product value assumed"))
+               tier="quick", timeout=900, replay=False, note="UF multiplier bounded by (2^64-1)^2"))
 UNITS.append(U("C05.sc_reduce_512", ["C05"], SM, "h_sc_reduce_512", verify=True, functions=["secp256k1_scalar_reduce_512"],
-               tier="thorough", timeout=3600, replay=False, note="real multiplications by the constant limbs of 2^256-n"))
+               tier="quick", timeout=900, replay=False, note="real multiplications by the constant limbs of 2^256-n"))
 UNITS.append(U("C05.sc_mul_512.W64", ["C05"], SM, "h_sc_mul_512", cfg="W64", verify=True, functions=["secp256k1_scalar_mul_512", "secp256k1_scalar_sqr_512"],
                tier="thorough", timeout=3600, replay=False, note="8x32: native 32x32->64 products"))
 UNITS.append(U("C05.sc_reduce_512.W64", ["C05"], SM, "h_sc_reduce_512", cfg="W64", verify=True, functions=["secp256k1_scalar_reduce_512"],
@@ -105,6 +111,8 @@ UNITS.append(U("C05.sc_reduce_512_value", ["C05"], SM, "h_sc_reduce_512_value", 
 UNITS.append(U("C05.sc_mul_512_value", ["C05"], SM, "h_sc_mul_512_value", verify=True, replace=UF, functions=["secp256k1_scalar_mul_512", "secp256k1_scalar_sqr_512"],
                tier="thorough", timeout=3600, replay=False, note="schoolbook sum over the uninterpreted 64x64 multiplier"))
 UNITS.append(U("C05.fe_mul_contract", ["C05"], FM, "h_fe_mul_contract", verify=True, enforce=["secp256k1_fe_mul"], replace=UF, functions=["secp256k1_fe_mul", "secp256k1_fe_impl_mul", "secp256k1_fe_mul_inner"],
-               timeout=1800, tier="thorough", replay=False, note="magnitude contract used by the group units, enforced on the real wrapper"))
+               timeout=900, tier="quick", replay=False, note="magnitude contract used by the group units, enforced on the real wrapper"))
 UNITS.append(U("C05.fe_sqr_contract", ["C05"], FM, "h_fe_sqr_contract", verify=True, enforce=["secp256k1_fe_sqr"], replace=UF, functions=["secp256k1_fe_sqr", "secp256k1_fe_impl_sqr", "secp256k1_fe_sqr_inner"],
-               timeout=1800, tier="thorough", replay=False))
+               timeout=900, tier="quick", replay=False))
+UNITS.append(U("C05.sc_mul_shift", ["C05"], SM, "h_sc_mul_shift", verify=True, replace=UF, functions=["secp256k1_scalar_mul_shift_var"],
+               tier="thorough", timeout=1800, replay=False, note="index/shift safety and VERIFY_CHECKs for every shift in [256,512]; rounding value assumed"))
